@@ -158,6 +158,13 @@ def run(tier):
             text = ("pragma circom 2.1.4;\nfunction g(n) {\n  return n;\n}\ntemplate A(p) {\n  %s\n}\ntemplate M(p) {\n  signal input x;\n  signal input y;\n"
                     "  signal output r;\n  signal output t;\n  signal output u;\n  signal output rr[2];\n  %s\n}\ncomponent main = M(1);\n" % (body, call))
             inputs.append(("anon-matrix:" + sn, text.encode()))
+    # ---- A4: semantic corner cases (bin/edgecases.py): legal or legally rejectable programs in which passes fold, index and
+    #          unwrap -- division by zero, out-of-range and zero-sized arrays, mismatched shapes, undefined and recursive callees,
+    #          duplicate declarations across kinds, odd main components, tags, every operator form -- under each curve
+    import edgecases
+    for nm, text in edgecases.programs():
+        for curve in CURVES:
+            inputs.append(("edge-matrix:" + curve, text.encode()))
     # ---- B: corpora
     corpus_texts = []
     for d in ("stress", "base"):
@@ -201,7 +208,7 @@ def run(tier):
         root = os.path.join(wd, "bin", "p%d" % i)
         files = [{"path": "in.circom", "named": True, "bytes": list(data)}]
         o = OPTS[i % len(OPTS)]
-        if origin.startswith("callee-matrix:"):
+        if origin.startswith("callee-matrix:") or origin.startswith("edge-matrix:"):
             o = dict(o, curve=origin.split(":")[1])
         r = proj.run_binary(files, root, {"level": o["level"], "verbose": o["verbose"], "sarif": o["sarif"]},
                             extra_args=["--curve", o["curve"]], timeout=60)
